@@ -73,9 +73,15 @@ func preRead(v any) op {
 	}}
 }
 
+// withPreRead: set by judge for ONE extra copy of the subject.  The snapshot is itself a first call of ToBytes and of the
+// printing method; taken on every copy it would hide what a first call changes from all the other comparisons.
+var withPreRead bool
+
 func opsOf(v any, extra ...op) []op {
 	var out []op
-	out = append(out, preRead(v))
+	if withPreRead {
+		out = append(out, preRead(v))
+	}
 	for _, c := range obs.Enumerate(v, 4) {
 		out = append(out, op{c.Path, render(c)})
 	}
@@ -188,9 +194,19 @@ func judge(r *mon.Rec, kind string, idx int, s subject, rng *rand.Rand) {
 	} else {
 		ref = evaluate(base, fwd, false)
 	}
-	if v, ok := ref[preReadPath]; ok && v != "same" {
-		r.Violate("C20:read-changes-encoding", fmt.Sprintf("%s: its encoding / printed form is not what it was before any accessor had been called: %s", s.desc, v), rp)
-		return
+	// one more copy, whose encoding and printed form are taken before anything else is called on it (the enumeration
+	// of the operations calls the getters once): after all reads they are what they were
+	withPreRead = true
+	opsP := s.mk()
+	withPreRead = false
+	if len(opsP) > 0 && opsP[0].path == preReadPath {
+		for _, o := range opsP[1:] {
+			safe(o.fn)
+		}
+		if v := safe(opsP[0].fn); v != "same" {
+			r.Violate("C20:read-changes-encoding", fmt.Sprintf("%s: its encoding / printed form is not what it was before any accessor had been called: %s", s.desc, v), rp)
+			return
+		}
 	}
 	compare := func(tag string, got map[string]string, ops []op, order []int) bool {
 		for _, i := range order {
@@ -455,7 +471,10 @@ func subjectFor(r *mon.Rec, kind string, idx int, typed map[int]string) subject 
 			}}
 			ops := opsOf(l, restore) // enumerated (which calls the getters once) while the set is as parsed; edited afterwards
 			l.Labels = append([]string{}, edited...)
-			return ops[1:] // without the pre-read snapshot, which was taken before the edit
+			if len(ops) > 0 && ops[0].path == preReadPath {
+				ops = ops[1:] // without the pre-read snapshot, which was taken before the edit
+			}
+			return ops
 		}, true}
 	case "duid":
 		return subject{"standalone DUID", func() []op {
